@@ -188,6 +188,94 @@ def fieldsOf (e : Entry) (rn : Nat) : List Field :=
 /-- `json.NewEncoder(buf).Encode(ent)`: the object and one line feed. -/
 def encodeLine (e : Entry) (rn : Nat) : Str := renderObj (fieldsOf e rn) ++ [10]
 
+/-! ## An independent reader of log lines
+
+`lexLine` is a specification of what a consumer of the JSONL file sees: a strict tokenizer for one
+flat JSON object of string and integer members on one line.  It knows nothing about `esc` or
+`renderObj`: strings end at the first quote that is not part of an escape, escapes must be
+`\" \\ \/ \b \f \n \r \t` or `\u` with four hex digits, raw control bytes are rejected. -/
+
+inductive Tok where
+  /-- the raw (still escaped) body of a string -/
+  | str (body : Str)
+  /-- the text of an integer -/
+  | num (text : Str)
+deriving Repr, DecidableEq
+
+def isHex (c : Nat) : Bool := (48 ≤ c && c ≤ 57) || (97 ≤ c && c ≤ 102) || (65 ≤ c && c ≤ 70)
+
+def isSimpleEscape (c : Nat) : Bool :=
+  c = 34 || c = 92 || c = 47 || c = 98 || c = 102 || c = 110 || c = 114 || c = 116
+
+def consFst (c : Nat) (p : Str × Str) : Str × Str := (c :: p.1, p.2)
+
+/-- Scan a string body up to its closing quote; the state is 0 (plain), 1 (after a backslash) or
+`k + 1` (`k` hex digits of a `\u` escape still to come).  Returns the body and what follows the quote. -/
+def scanStr : Nat → Str → Option (Str × Str)
+  | _, [] => none
+  | 0, c :: r =>
+    if c = 34 then some ([], r)
+    else if c < 32 then none
+    else (scanStr (if c = 92 then 1 else 0) r).map (consFst c)
+  | 1, c :: r =>
+    if c = 117 then (scanStr 5 r).map (consFst c)
+    else if isSimpleEscape c then (scanStr 0 r).map (consFst c)
+    else none
+  | n + 2, c :: r =>
+    if isHex c then (scanStr (if n = 0 then 0 else n + 1) r).map (consFst c) else none
+
+/-- The longest prefix of sign and digit characters. -/
+def scanNum : Str → Str × Str
+  | [] => ([], [])
+  | c :: r => if c = 45 ∨ (48 ≤ c ∧ c ≤ 57) then consFst c (scanNum r) else ([], c :: r)
+
+/-- One member `"key":value`. -/
+def lexField (s : Str) : Option ((Str × Tok) × Str) :=
+  match s with
+  | [] => none
+  | q :: r =>
+    if q ≠ 34 then none
+    else match scanStr 0 r with
+      | none => none
+      | some (k, r1) =>
+        match r1 with
+        | [] => none
+        | colon :: r2 =>
+          if colon ≠ 58 then none
+          else match r2 with
+            | [] => none
+            | v :: r3 =>
+              if v = 34 then
+                (match scanStr 0 r3 with
+                 | none => none
+                 | some (body, r4) => some ((k, .str body), r4))
+              else
+                (if (scanNum r2).1 = [] then none else some ((k, .num (scanNum r2).1), (scanNum r2).2))
+
+/-- Members separated by commas up to the closing brace (`fuel` bounds the number of members). -/
+def lexFields : Nat → Str → Option (List (Str × Tok) × Str)
+  | 0, _ => none
+  | fuel + 1, s =>
+    match lexField s with
+    | none => none
+    | some (fld, rest) =>
+      match rest with
+      | [] => none
+      | c :: r =>
+        if c = 125 then some ([fld], r)
+        else if c = 44 then (lexFields fuel r).map (fun p => (fld :: p.1, p.2))
+        else none
+
+/-- A log line: `{`, members, `}`, one line feed, nothing else. -/
+def lexLine (s : Str) : Option (List (Str × Tok)) :=
+  match s with
+  | [] => none
+  | c :: r =>
+    if c ≠ 123 then none
+    else match lexFields r.length r with
+      | some (fs, [10]) => some fs
+      | _ => none
+
 /-! ## The request path down to `recordQueryInfo` -/
 
 structure Prof where
@@ -209,6 +297,30 @@ def DevRes.data : DevRes → Option (Prof × Str)
   | .ok p d => some (p, d)
   | _ => none
 
+/-- What the profile database answers for the identification data of the request. -/
+inductive Lookup where
+  | notFound
+  /-- a profile and device; `deleted`: `Profile.Deleted`; `authOK`: the device's authentication
+  settings accept this request (`devicefinder.authenticate`) -/
+  | found (p : Prof) (dev : Str) (deleted : Bool) (authOK : Bool)
+  | err
+  | unknownDedicated
+deriving Repr, DecidableEq
+
+/-- `devicefinder.Default.Find`: protocols without a way to carry a device ID (DNSCrypt) are never
+attributed; a deleted profile counts as not found; a found device that fails authentication yields
+`DeviceResultAuthenticationFailure`. -/
+def findDevice (supportsID : Bool) (l : Lookup) : DevRes :=
+  if ¬ supportsID then .anon
+  else match l with
+    | .notFound => .anon
+    | .found p d deleted authOK => if deleted then .anon else if authOK then .ok p d else .authFail
+    | .err => .error
+    | .unknownDedicated => .unknownDedicated
+
+/-- `ratelimitmw.supportsDeviceID`: DoH 3, DoQ 4, DoT 5, plain DNS 8 (not DNSCrypt 9). -/
+def supportsDeviceID (proto : Nat) : Bool := proto = 3 || proto = 4 || proto = 5 || proto = 8
+
 /-- What `responseData` extracts from a response. -/
 inductive IPKind where
   | none | unspec | addr
@@ -227,7 +339,12 @@ structure Req where
   globBlockIP : Bool
   globBlockHost : Bool
   profBlock : Bool
+  /-- the malformed-ECS error of `ratelimitmw.location`: answered FORMERR after the access checks -/
+  badECS : Bool
+  /-- the global limiter's verdict -/
   rlDrop : Bool
+  /-- the profile's own limiter: 0 use the global one, 1 pass, 2 drop -/
+  profRl : Nat
   /-- a malformed `resolver.arpa` query, answered NODATA by the initial middleware; never reaches
   the main middleware -/
   special : Bool
@@ -284,14 +401,17 @@ def filteringData (req resp : FRes) : Str × Str × Bool :=
   | .allowed => (r.list, r.rule, false)
   | _ => (r.list, r.rule, true)
 
+/-- `blockedRespFallback`: SERVFAIL without data when the blocked response cannot be built. -/
+def servfail : RespData := ⟨2, false, .none⟩
+
 /-- `setFilteredResponse` / `setFilteredResponseNoReq`. -/
 def filteredResp (q : Req) : RespData :=
   match q.reqRes.kind with
   | .none =>
     (match q.respRes.kind with
-     | .blocked => if q.blockErr then q.orig else q.blockedResp
+     | .blocked => if q.blockErr then servfail else q.blockedResp
      | _ => q.orig)
-  | .blocked => if q.blockErr then q.orig else q.blockedResp
+  | .blocked => if q.blockErr then servfail else q.blockedResp
   | .allowed => q.orig
   | .modReq => q.orig
   | .modResp => q.modResp
@@ -340,7 +460,15 @@ def initialmw (q : Req) : Effects :=
                      | none => none
                      | some r => some { r with ad := r.ad && q.adWanted } }
 
-/-- The whole path: spoofed port, device result, access, limiter, special domains, main. -/
+/-- `serveWithRatelimiting`: only plain DNS (protocol 8) is rate limited; a profile's own limiter
+decides alone unless it defers to the global one; unattributed queries use the global one. -/
+def rlDropEff (q : Req) : Bool :=
+  q.proto = 8 &&
+    (match q.dev.data with
+     | some _ => q.profRl = 2 || (q.profRl = 0 && q.rlDrop)
+     | none => q.rlDrop)
+
+/-- The whole path: spoofed port, device result, access, malformed ECS, limiter, special domains, main. -/
 def serve (q : Req) : Effects :=
   if q.port0 then {}
   else match q.dev with
@@ -348,7 +476,8 @@ def serve (q : Req) : Effects :=
     | .error => {}
     | _ =>
       if q.globBlockIP ∨ q.globBlockHost ∨ (q.dev.data.isSome ∧ q.profBlock) then {}
-      else if q.rlDrop then {}
+      else if q.badECS then { resp := if q.writeErr then none else some ⟨1, false, .none⟩ }
+      else if rlDropEff q then {}
       else if q.special then { resp := if q.writeErr then none else some ⟨0, false, .none⟩ }
       else initialmw q
 
